@@ -51,6 +51,13 @@ theorem uncurated_identity (W : List Mat) (chans : List (List Nat)) (st : List N
     loadClusters W chans st st ns nc = (W, W.length) :=
   Lemmas.uncurated_identity W chans st ns nc
 
+/-- There are as many cluster waveform blocks as declared clusters: one per id up to the highest
+when anything was curated, one per template otherwise. -/
+theorem cluster_count_rule (W : List Mat) (chans : List (List Nat)) (st sc : List Nat) (ns nc : Nat) :
+    (loadClusters W chans st sc ns nc).1.length = (loadClusters W chans st sc ns nc).2 ∧
+    (loadClusters W chans st sc ns nc).2 = if sc = st then W.length else sc.foldl max 0 + 1 :=
+  Lemmas.cluster_count_rule W chans st sc ns nc
+
 /-! Non-vacuity -/
 example : mergeMap [0, 0, 1, 2, 2, 1] [4, 0, 4, 2, 2, 4] = [[0], [], [2], [], [0, 1]] := by decide
 example : nanIdx (mergeMap [0, 0, 1, 2, 2, 1] [4, 0, 4, 2, 2, 4]) = [1, 3] := by decide
